@@ -211,6 +211,18 @@ def outer_block_loops(ctx, body):
                 elif re.search(r"\.blocks\b", txt):
                     kind = "files"
         if kind:
+            # a `for` over a lazy pipeline (`for x in blocks.iter().filter_map(..)`) reads, normalised, as
+            # the for-loop around an inner loop that pulls the next accepted item: the iteration is the
+            # enclosing loop when that one has no driving next() of its own
+            for H, HB in cfg.loops().items():
+                if H == h or not (set(blocks) < set(HB)):
+                    continue
+                own = [x for x in HB if body.blocks[x]["term"] and body.blocks[x]["term"]["k"] == "call"
+                       and callee_matches(body.blocks[x]["term"], r"Iterator>?::next$") and cfg.innermost_loop(x) == H]
+                inner_parents = [H2 for H2, HB2 in cfg.loops().items() if H2 not in (h, H) and set(blocks) < set(HB2) and set(HB2) < set(HB)]
+                if not own and not inner_parents:
+                    h, blocks = H, HB
+                    break
             res.append((h, blocks, kind))
     return res
 
